@@ -412,3 +412,65 @@ Qed.
 (** every sequence of operations keeps the grid rows x cols and cursor / scroll region on the screen *)
 Theorem steps_wf ops : forall s, wf s -> wf (fold_left sstep ops s).
 Proof. induction ops as [|o ops IH]; intros s H; cbn; auto using sstep_wf. Qed.
+
+(** -- further cell-level / field-level characterisations (exported by Props/C19.v) ------------ *)
+Theorem put_abs_spec s r c ch : wf s ->
+  wf (put_abs s r c ch) /\ same_fields (put_abs s r c ch) s /\
+  forall i j, cell (w (put_abs s r c ch)) i j =
+    if (Nat.eqb i (Z.to_nat (constrain r 1 (rows s) - 1)) && Nat.eqb j (Z.to_nat (constrain c 1 (cols s) - 1)))%bool
+    then ch else cell (w s) i j.
+Proof.
+  intros H. split; [now apply put_abs_wf|]. split; [apply put_abs_fields|].
+  intros i j. now apply put_abs_cell.
+Qed.
+
+(** save followed by restore brings the cursor back where it was and touches nothing but the saved cursor *)
+Theorem save_restore_roundtrip s : wf s ->
+  let s' := cursor_restore_attrs (cursor_save_attrs s) in
+  cur_r s' = cur_r s /\ cur_c s' = cur_c s /\ sav_r s' = cur_r s /\ sav_c s' = cur_c s /\
+  w s' = w s /\ rows s' = rows s /\ cols s' = cols s /\ sr_start s' = sr_start s /\ sr_end s' = sr_end s.
+Proof.
+  intros H. destruct H. cbn.
+  rewrite (constrain_id (cur_r s) (rows s)) by assumption.
+  rewrite (constrain_id (cur_c s) (cols s)) by assumption.
+  repeat split.
+Qed.
+
+(** a restore, whatever happened to the cursor in between, returns to the saved position (moves do not touch it) *)
+Definition is_move (o : sop) : bool :=
+  match o with
+  | OHome _ _ | OBack _ | OForward _ | ODown _ | OUp _ => true
+  | _ => false
+  end.
+
+Lemma move_frame s o : is_move o = true ->
+  w (sstep s o) = w s /\ sav_r (sstep s o) = sav_r s /\ sav_c (sstep s o) = sav_c s /\
+  sr_start (sstep s o) = sr_start s /\ sr_end (sstep s o) = sr_end s /\ rows (sstep s o) = rows s /\ cols (sstep s o) = cols s.
+Proof. destruct o; cbn; intros E; try discriminate E; repeat split. Qed.
+
+Theorem moves_frame ops : forall s, forallb is_move ops = true ->
+  w (fold_left sstep ops s) = w s /\ sav_r (fold_left sstep ops s) = sav_r s /\ sav_c (fold_left sstep ops s) = sav_c s /\
+  sr_start (fold_left sstep ops s) = sr_start s /\ sr_end (fold_left sstep ops s) = sr_end s /\
+  rows (fold_left sstep ops s) = rows s /\ cols (fold_left sstep ops s) = cols s.
+Proof.
+  induction ops as [|o ops IH]; intros s E; cbn [fold_left].
+  - repeat split.
+  - cbn [forallb] in E. apply andb_true_iff in E. destruct E as [Eo Er].
+    destruct (move_frame s o Eo) as (A & B & C & D & F & G & I).
+    destruct (IH (sstep s o) Er) as (A' & B' & C' & D' & F' & G' & I').
+    repeat split; congruence.
+Qed.
+
+(** save ; any cursor movements ; restore = back at the saved position, grid and scroll region as they were *)
+Theorem save_moves_restore s ops : wf s -> forallb is_move ops = true ->
+  let s' := cursor_restore_attrs (fold_left sstep ops (cursor_save_attrs s)) in
+  cur_r s' = cur_r s /\ cur_c s' = cur_c s /\ w s' = w s /\ sr_start s' = sr_start s /\ sr_end s' = sr_end s.
+Proof.
+  intros H E. cbv zeta.
+  destruct (moves_frame ops (cursor_save_attrs s) E) as (A & B & C & D & F & G & I).
+  destruct H. unfold cursor_restore_attrs, cursor_home, cursor_constrain. cbn [cur_r cur_c set_cur w sr_start sr_end rows cols].
+  rewrite B, C, G, I, A, D, F. cbn [cursor_save_attrs set_sav sav_r sav_c rows cols w sr_start sr_end].
+  rewrite (constrain_id (cur_r s) (rows s)) by assumption.
+  rewrite (constrain_id (cur_c s) (cols s)) by assumption.
+  repeat split.
+Qed.
